@@ -5,6 +5,9 @@ import StorageModel.Tx.Db
 
   * an operation is either accepted (its whole effect is applied) or rejected; the reasons for a
     rejection are listed declaratively;
+  * a custom index-stage constraint (boltz.Constraint registered with AddConstraint on the parent or on
+    the child store) that objects — before the update, after the write of a create / update, before
+    the delete — rejects the operation, whichever store the operation was invoked on;
   * a transaction succeeds iff no step of its body is rejected (and the caller did not return an
     error, and no pre-commit action of the context fails); otherwise nothing changes and nothing runs;
   * a committed transaction announces, to every listener registered for kind k on store σ, exactly
@@ -22,6 +25,15 @@ def vetoed (env : Env) (σ : StoreId) (k : Kind) (id : String) : Bool :=
     | .listener _ _ => false
 
 def hasChild (db : Db) (id : String) : Bool := ((db.get id).bind (·.child)).isSome
+
+/-- some custom index-stage constraint registered on store σ objects to (stage, id) -/
+def ixVetoed (env : Env) (σ : StoreId) (stage : Stage) (id : String) : Bool :=
+  (env.ix σ).any fun vs => vs.contains (stage, id)
+
+/-- an operation performed by store σe (the parent store, or the child store for an entity with child
+    data) consults the constraints of the parent store and, for σe = C, those of the child store -/
+def ixVetoedFor (env : Env) (σe : StoreId) (stage : Stage) (id : String) : Bool :=
+  ixVetoed env .P stage id || (match σe with | .P => false | .C => ixVetoed env .C stage id)
 
 /-- does an injected storage fault strike an operation that performs `lp` / `lc` FillEntity and
     `pp` / `pc` PersistEntity calls on the parent / child strategy? -/
@@ -70,6 +82,8 @@ structure Verdict where
   deriving Repr
 
 def rejectClean (db : Db) : Verdict := { accepted := false, db := db, flows := [], exact := true }
+/-- also: rejected by an index-stage constraint — the transaction must fail; what a caller that goes on
+    regardless finds is not specified -/
 def rejectDirty (db : Db) : Verdict := { accepted := false, db := db, flows := [], exact := false }
 
 /-- flows are vetoed one after the other; the ones before the first vetoed flow went through -/
@@ -98,6 +112,7 @@ def specCreate (env : Env) (fault : Fault) (σ : StoreId) (id : String) (f : PFi
     let db' := db.put id (writtenEnt σ db id f rank)
     let counts : Nat × Nat := match σ with | .P => (1, 0) | .C => (1, 1)
     if writeRejected db db' id none f || faultHits fault counts.1 counts.2 counts.1 counts.2 then rejectDirty db'
+    else if ixVetoedFor env σ .afterUpdate id then rejectDirty db
     else finish env fault db' (writeFlows σ .created db db' id)
 
 /-- an entity with child data is updated through the child store, whichever store was asked -/
@@ -117,6 +132,7 @@ def specUpdate (env : Env) (fault : Fault) (σ : StoreId) (id : String) (f : PFi
       let db' := db.put id (writtenEnt σ db id f rank)
       let counts : Nat × Nat × Nat × Nat := match σe with | .P => (2, 0, 1, 0) | .C => (2, 2, 1, 1)
       if writeRejected db db' id old f || faultHits fault counts.1 counts.2.1 counts.2.2.1 counts.2.2.2 then rejectDirty db'
+      else if ixVetoedFor env σe .beforeUpdate id || ixVetoedFor env σe .afterUpdate id then rejectDirty db
       else finish env fault db' (writeFlows σe .updated db db' id)
 
 /-- deleting through either store deletes the whole entity -/
@@ -129,6 +145,8 @@ def specDelete (env : Env) (fault : Fault) (id : String) (db : Db) : Verdict :=
     if faultHits fault counts.1 counts.2 0 0 then rejectDirty db
     -- restrict: another entity still refers to this one
     else if db.any (fun p => !(p.1 == id) && refBytes p.2.f.ref == id) then rejectDirty db
+    -- a custom constraint of the parent store or (entity with child data) of the child store objects
+    else if ixVetoedFor env σe .beforeDelete id then rejectDirty db
     else finish env fault (db.del id) (writeFlows σe .deleted db db id)
 
 /-- the fault as seen by an operation that starts after `lp` / `lc` FillEntity calls were made (a
